@@ -485,44 +485,47 @@ theorem mem_mswIslands {sl : List Slack} {sets : List (List Nat)} {i : Nat} :
   simp only [List.mem_filter, List.mem_range, decide_eq_true_eq]
   omega
 
-/-! ### ConnMan: one bus switched off, groups with at most one model -/
+/-- the loop guard `len(islanded_buses) < n` fails exactly when every bus is isolated -/
+theorem guard_iff_all_islanded (n : Nat) (es : List Edge) :
+    n ≤ (islanded n es).length ↔ ∀ v, v < n → v ∈ islanded n es := by
+  have hle : (islanded n es).length ≤ n := by
+    have := List.length_filter_le (fun j => deg es j == 0) (List.range n)
+    simpa [islanded] using this
+  constructor
+  · intro h v hv
+    have heq : ((List.range n).filter fun j => deg es j == 0).length = (List.range n).length := by
+      have : (islanded n es).length = n := by omega
+      simpa [islanded] using this
+    have hall := List.length_filter_eq_length_iff.mp heq v (List.mem_range.mpr hv)
+    exact List.mem_filter.mpr ⟨List.mem_range.mpr hv, hall⟩
+  · intro h
+    have heq : ((List.range n).filter fun j => deg es j == 0).length = (List.range n).length := by
+      apply List.length_filter_eq_length_iff.mpr
+      intro a ha
+      have := h a (List.mem_range.mp ha)
+      exact (List.mem_filter.mp this).2
+    have : (islanded n es).length = n := by simpa [islanded] using heq
+    omega
 
-/-- does one of the first `nsrc` bus fields of `d` name bus `b`? -/
-def attachedB (nsrc b : Nat) (d : Dev) : Bool := (List.range nsrc).any fun k => d.buses[k]? == some b
+/-! ### ConnMan: any set of buses switched off, groups with any number of models -/
+
+/-- does one of the first `nsrc` bus fields of `d` name one of the buses `bs`? -/
+def attachedB (nsrc : Nat) (bs : List Nat) (d : Dev) : Bool :=
+  (List.range nsrc).any fun k => bs.any fun b => d.buses[k]? == some b
 
 /-- the specification of `act` on one device -/
-def offIfAttached (nsrc b : Nat) (d : Dev) : Dev := if attachedB nsrc b d then { d with u := false } else d
+def offIfAttached (nsrc : Nat) (bs : List Nat) (d : Dev) : Dev :=
+  if attachedB nsrc bs d then { d with u := false } else d
 
 theorem setOff_nil (g : Grp) : setOff g [] = g := by
   cases g; simp [setOff]
 
-theorem actGroup_ok {g : Grp} {offs : List Nat} (h : none ∉ devicesFlat g offs) :
-    actGroup g offs = .ok (setOff g ((devicesFlat g offs).filterMap id)) := by
+theorem actGroup_eq_setOff (g : Grp) (offs : List Nat) : actGroup g offs = setOff g (devicesFlat g offs) := by
   unfold actGroup
   by_cases he : devicesFlat g offs = []
   · simp [he, setOff_nil]
   · have h1 : (devicesFlat g offs).isEmpty = false := by simpa using he
-    have h2 : (devicesFlat g offs).contains none = false := by simpa using h
-    simp [h1, h]
-
-theorem grpDevsFlat_single (g : Grp) (b k : Nat) :
-    (if grpDevsFlat g [b] k == [none] then [] else grpDevsFlat g [b] k) = (firstMatches g.models k b).map some := by
-  unfold grpDevsFlat
-  simp only [List.flatMap_cons, List.flatMap_nil, List.append_nil]
-  by_cases he : firstMatches g.models k b = []
-  · simp [he]
-  · have h1 : (firstMatches g.models k b).isEmpty = false := by simpa using he
-    simp only [h1, Bool.false_eq_true, if_false]
-    have : ((firstMatches g.models k b).map some == [none]) = false := by
-      cases hl : firstMatches g.models k b with
-      | nil => exact absurd hl he
-      | cons a l => simp
-    simp [this]
-
-theorem devicesFlat_single (g : Grp) (b : Nat) :
-    devicesFlat g [b] = ((List.range g.nsrc).flatMap fun k => firstMatches g.models k b).map some := by
-  unfold devicesFlat
-  simp only [grpDevsFlat_single, List.map_flatMap]
+    simp [h1]
 
 /-- identifiers of the devices of a group -/
 def grpIds (g : Grp) : List Nat := g.models.flatMap fun m => m.map (·.id)
@@ -531,50 +534,46 @@ theorem grpIds_eq (g : Grp) : grpIds g = g.models.flatten.map (·.id) := by
   unfold grpIds
   rw [List.map_flatten, List.flatMap_def]
 
-/-- with distinct idx in the group, a device's idx is among the matches iff the device is attached to the bus -/
-theorem mem_ids_group {g : Grp} (hn : (grpIds g).Nodup) (b : Nat) {m : List Dev} {d : Dev} (hm : m ∈ g.models) (hd : d ∈ m) :
-    d.id ∈ ((List.range g.nsrc).flatMap fun k => firstMatches g.models k b) ↔ attachedB g.nsrc b d = true := by
-  unfold attachedB firstMatches modelMatches
+/-- with distinct idx in the group, a device's idx is among the collected matches iff the device is attached to
+one of the switched-off buses -/
+theorem mem_ids_group {g : Grp} (hn : (grpIds g).Nodup) (bs : List Nat) {m : List Dev} {d : Dev}
+    (hm : m ∈ g.models) (hd : d ∈ m) :
+    d.id ∈ devicesFlat g bs ↔ attachedB g.nsrc bs d = true := by
+  unfold attachedB devicesFlat firstMatches modelMatches
   simp only [List.mem_flatMap, List.mem_range, List.mem_map, List.mem_filter, List.any_eq_true, beq_iff_eq]
   rw [grpIds_eq] at hn
   have hdf : d ∈ g.models.flatten := List.mem_flatten.mpr ⟨m, hm, hd⟩
   constructor
-  · rintro ⟨k, hk, m', hm', d', ⟨hd', hb⟩, hid⟩
+  · rintro ⟨k, hk, b, hb, m', hm', d', ⟨hd', hbb⟩, hid⟩
     have hdf' : d' ∈ g.models.flatten := List.mem_flatten.mpr ⟨m', hm', hd'⟩
     have : d' = d := List.inj_on_of_nodup_map hn hdf' hdf hid
-    exact ⟨k, hk, this ▸ hb⟩
-  · rintro ⟨k, hk, hb⟩
-    exact ⟨k, hk, m, hm, d, ⟨hd, hb⟩, rfl⟩
+    exact ⟨k, hk, b, hb, this ▸ hbb⟩
+  · rintro ⟨k, hk, b, hb, hbb⟩
+    exact ⟨k, hk, b, hb, m, hm, d, ⟨hd, hbb⟩, rfl⟩
 
-/-- `act` on one group, one bus off, distinct idx: exactly the attached devices go off, in EVERY model of the group -/
-theorem actGroup_single {g : Grp} (hn : (grpIds g).Nodup) (b : Nat) :
-    actGroup g [b] = .ok { g with models := g.models.map fun m => m.map (offIfAttached g.nsrc b) } := by
-  have hnone : none ∉ devicesFlat g [b] := by rw [devicesFlat_single]; simp
-  rw [actGroup_ok hnone, devicesFlat_single]
-  have hfm : (((List.range g.nsrc).flatMap fun k => firstMatches g.models k b).map some).filterMap id
-      = ((List.range g.nsrc).flatMap fun k => firstMatches g.models k b) := by
-    rw [List.filterMap_map]; simp
-  rw [hfm]
+/-- `act` on one group, any buses off, distinct idx: exactly the attached devices go off, in EVERY model -/
+theorem actGroup_spec {g : Grp} (hn : (grpIds g).Nodup) (bs : List Nat) :
+    actGroup g bs = { g with models := g.models.map fun m => m.map (offIfAttached g.nsrc bs) } := by
+  rw [actGroup_eq_setOff]
   unfold setOff
-  congr 2
+  congr 1
   apply List.map_congr_left
   intro m hm
   apply List.map_congr_left
   intro d hd
   unfold offIfAttached
-  have := mem_ids_group hn b hm hd
-  by_cases ha : attachedB g.nsrc b d = true
+  have := mem_ids_group hn bs hm hd
+  by_cases ha : attachedB g.nsrc bs d = true
   · simp [ha, this.mpr ha]
-  · have hni : d.id ∉ ((List.range g.nsrc).flatMap fun k => firstMatches g.models k b) := fun h => ha (this.mp h)
+  · have hni : d.id ∉ devicesFlat g bs := fun h => ha (this.mp h)
     simp [ha, hni]
 
-theorem actGroups_single : ∀ (gs : List Grp) (b : Nat), (∀ g ∈ gs, (grpIds g).Nodup) →
-    actGroups gs [b] = (gs.map fun g => { g with models := g.models.map fun m => m.map (offIfAttached g.nsrc b) }, none)
-  | [], _, _ => rfl
-  | g :: gs, b, h => by
-    have hg := h g (List.mem_cons_self ..)
-    have ih := actGroups_single gs b (fun g' hg' => h g' (List.mem_cons_of_mem _ hg'))
-    simp only [actGroups, actGroup_single hg b, ih, List.map_cons]
+theorem actGroups_spec (gs : List Grp) (bs : List Nat) (h : ∀ g ∈ gs, (grpIds g).Nodup) :
+    actGroups gs bs = gs.map fun g => { g with models := g.models.map fun m => m.map (offIfAttached g.nsrc bs) } := by
+  unfold actGroups
+  apply List.map_congr_left
+  intro g hg
+  exact actGroup_spec (h g hg) bs
 
 /-! ### neutralising isolated buses -/
 
